@@ -183,7 +183,11 @@ SlotUniverse(s) ==
                                 Op("add", Op("sub", AdaE(Lit(1000000)), AdaE(PN)), AdaE(PN)),
                                 Op("add", Op("sub", Op("add", AdaE(Lit(2000000)), TokE(Lit(5))), TokE(PN)), TokE(PN)),
                                 Op("add", Op("sub", Op("sub", Source, AdaE(PN)), FeesE), AdaE(PN)),
-                                Op("add", Op("sub", Source, TokE(PN)), TokE(Op("sub", PN, PM)))}
+                                Op("add", Op("sub", Source, TokE(PN)), TokE(Op("sub", PN, PM))),
+                                \* an intermediate result that cancels out completely, and what is subtracted from it
+                                Op("add", Op("sub", Op("sub", AdaE(PN), AdaE(PN)), TokE(Lit(3))), Op("add", TokE(Lit(10)), AdaE(Lit(1500000)))),
+                                Op("add", Op("sub", Op("sub", TokE(PN), TokE(PN)), AdaE(Lit(1000000))), AdaE(Lit(3000000))),
+                                Op("add", Op("sub", Op("sub", Source, Source), TokE(Lit(3))), Op("add", TokE(Lit(10)), AdaE(Lit(1500000))))}
       [] s \in {"b_mint", "b_burn"} -> {TokE(PN), TokE(Op("sub", PN, PM)), TokE(Op("add", PN, PM)), AnyA(Hex(H2), Str(<<98>>), U("neg", PN))}
       \* the mint field aggregates blocks: two mints of one asset, a mint and a burn of it, the same over two assets of a policy
       [] s \in {"b_mint2", "b_mint_burn", "b_burn2", "b_mint3"} -> {TokE(PN), Op("add", TokE(PN), AnyA(Hex(H1), Str(<<98>>), PN)), AnyA(Hex(H2), Str(<<98>>), PN)}
